@@ -19,14 +19,24 @@
    * compaction (MemStorage::compact at first < ci <= last, ci <= applied) changes no
      RaftLog query at or above the compaction point (compaction_transparent).
 
-   REFUTED reading / finding F2 (restore_requested_installs, the witness theorems):
-   the sentence "a snapshot whose (index, term) already matches the local log ... only
-   advances the commit index and discards nothing" holds ONLY when the node has no
-   snapshot request pending.  While pending_request_snapshot <> 0 EVERY snapshot that
-   passes the guards is installed, also an older duplicated one that matches the log:
-   the witness is a follower with persisted entries 1..5, commit 4, pending request,
-   receiving MsgSnapshot(index 4, matching term): the log is cut back to 4 (entry 5,
-   already persisted and possibly acknowledged, is no longer visible to the node).
+   FINDING F2 — FIXED in /repo by commit 5a0d8a9; the model M/Raft.v follows.
+   Before the fix `restore` skipped the fast-forward branch whenever
+   pending_request_snapshot <> 0, so a duplicated OLDER MsgSnapshot that matched the
+   log was installed and cut the log back (witness: follower with persisted entries
+   1..5, commit 4, request pending at 5, MsgSnapshot(4, matching term): entry 5 lost).
+   Now a snapshot below the requested index is treated as unrequested:
+   * matching_snapshot_below_request_discards_nothing: guards + match_term +
+     s_index < pending => only the commit index changes;
+   * restore_requested_installs: only a snapshot that can answer the request
+     (pending <> 0 and pending <= s_index) is installed regardless of matching;
+   * requested_stale_snapshot_keeps_log(_step): REGRESSION GUARD — in exactly the old
+     witness state restore answers false and the log is unchanged;
+   * requested_snapshot_at/above_request_installed: a snapshot at index 5 or 6 is still
+     installed in that state.
+   The property sentence "a snapshot whose (index, term) already matches the local log,
+   and that the node did not itself request, only advances the commit index and
+   discards nothing" is now proved with "did not itself request" read as
+   "no request pending, or the snapshot is below the requested index".
 
    NOT PROVED here:
    * the cross-node clause "the state after an install equals that of a node that
@@ -48,14 +58,15 @@ Local Open Scope N_scope.
 
 (* 1. A snapshot is installed only if it is not behind the commit index, the node is a
    follower and a member of the snapshot's ConfState, and it is not the case that the
-   node has no request pending and the snapshot already matches the log. *)
+   snapshot is unrequested (no request pending, or below the requested index) and
+   already matches the log. *)
 Theorem C15_restore_guard :
   forall r s r', restore r s = Ok (r', true) ->
     committed (r_log r) <= s_index s /\ r_state r = Follower /\
     (IdSet.mem (r_id r) (cs_voters (s_cs s)) = true \/
      IdSet.mem (r_id r) (cs_learners (s_cs s)) = true \/
      IdSet.mem (r_id r) (cs_voters_outgoing (s_cs s)) = true) /\
-    ~ (r_pending_request_snapshot r = 0 /\
+    ~ ((r_pending_request_snapshot r = 0 \/ s_index s < r_pending_request_snapshot r) /\
        match_term (r_log r) (s_index s) (s_term s) = Ok true) /\
     s_index s <> 0.
 Proof. exact restore_guard. Qed.
@@ -103,7 +114,8 @@ Theorem C15_restore_effect :
 Proof. exact restore_effect. Qed.
 Print Assumptions C15_restore_effect.
 
-(* 3. Fast-forward: no request pending and the snapshot matches the log: only the
+(* 3. Fast-forward: unrequested (no request pending, or the snapshot is below the
+   requested index) and the snapshot matches the log: only the
    commit index changes (set_committed), nothing is discarded, result false.  (The
    panic case needs a snapshot with term 0 beyond the last index.) *)
 Theorem C15_restore_fastforward :
@@ -111,7 +123,7 @@ Theorem C15_restore_fastforward :
     committed (r_log r) <= s_index s -> r_state r = Follower ->
     IdSet.mem (r_id r) (cs_voters (s_cs s)) || IdSet.mem (r_id r) (cs_learners (s_cs s))
       || IdSet.mem (r_id r) (cs_voters_outgoing (s_cs s)) = true ->
-    r_pending_request_snapshot r = 0 ->
+    (r_pending_request_snapshot r = 0 \/ s_index s < r_pending_request_snapshot r) ->
     match_term (r_log r) (s_index s) (s_term s) = Ok true ->
     (s_index s <= last_index (r_log r) \/ s_index s = committed (r_log r) ->
      restore r s =
@@ -161,48 +173,93 @@ Theorem C15_handle_snapshot_reply :
 Proof. exact handle_snapshot_reply. Qed.
 Print Assumptions C15_handle_snapshot_reply.
 
-(* F2, universal form: with a request pending, whatever passes the guards is installed
-   (never fast-forwarded), matching or not, and the log then ends at the snapshot. *)
+(* A snapshot that can answer the node's own request (request pending, snapshot not
+   below the requested index) is installed whenever it passes the guards, matching or
+   not, and the log then ends at the snapshot. *)
 Theorem C15_restore_requested_installs :
   forall r s r' b,
     committed (r_log r) <= s_index s -> r_state r = Follower ->
     IdSet.mem (r_id r) (cs_voters (s_cs s)) || IdSet.mem (r_id r) (cs_learners (s_cs s))
       || IdSet.mem (r_id r) (cs_voters_outgoing (s_cs s)) = true ->
-    r_pending_request_snapshot r <> 0 ->
+    r_pending_request_snapshot r <> 0 -> r_pending_request_snapshot r <= s_index s ->
     restore r s = Ok (r', b) ->
     b = true /\ last_index (r_log r') = s_index s /\ u_entries (unst (r_log r')) = [] /\
     committed (r_log r') = s_index s.
 Proof. exact restore_requested_installs. Qed.
 Print Assumptions C15_restore_requested_installs.
 
-(* F2 witness (w_requested = request_snapshot applied to the follower w_follower that
-   holds persisted entries 1..5 of term 1 with commit 4; w_snap = snapshot (4, term 1)). *)
-Theorem C15_requested_snapshot_truncates_witness :
+(* F2 fixed: a matching snapshot BELOW the requested index discards nothing: every Ok
+   result is "false" and differs from r in the commit index only; the Ok result exists
+   whenever the snapshot index is within the log. *)
+Theorem C15_matching_snapshot_below_request_discards_nothing :
+  forall r s,
+    committed (r_log r) <= s_index s -> r_state r = Follower ->
+    IdSet.mem (r_id r) (cs_voters (s_cs s)) || IdSet.mem (r_id r) (cs_learners (s_cs s))
+      || IdSet.mem (r_id r) (cs_voters_outgoing (s_cs s)) = true ->
+    s_index s < r_pending_request_snapshot r ->
+    match_term (r_log r) (s_index s) (s_term s) = Ok true ->
+    let r_ff :=
+      r <| r_log := mkLog (store (r_log r)) (unst (r_log r)) (s_index s) (persisted (r_log r))
+                          (applied (r_log r)) (max_apply_unpersisted_log_limit (r_log r)) |> in
+    (forall r' b, restore r s = Ok (r', b) -> b = false /\ r' = r_ff) /\
+    (s_index s <= last_index (r_log r) -> restore r s = Ok (r_ff, false)).
+Proof. exact matching_snapshot_below_request_discards_nothing. Qed.
+Print Assumptions C15_matching_snapshot_below_request_discards_nothing.
+
+(* F2 REGRESSION GUARD (w_requested = request_snapshot applied to the follower
+   w_follower that holds persisted entries 1..5 of term 1 with commit 4, so the request
+   is pending at 5; w_snap = snapshot (4, term 1)): the state in which the stale
+   snapshot used to be installed.  Now restore answers false and the log is unchanged. *)
+Theorem C15_requested_stale_snapshot_keeps_log :
   let r := w_requested in
   let s := w_snap in
   r_state r = Follower /\ r_pending_request_snapshot r = 5 /\
   last_index (r_log r) = 5 /\ persisted (r_log r) = 5 /\ committed (r_log r) = 4 /\
   s_index s = 4 /\ match_term (r_log r) (s_index s) (s_term s) = Ok true /\
   RaftLog.term (r_log r) 5 = Ok (SOk 1) /\
-  exists r', restore r s = Ok (r', true) /\
-    last_index (r_log r') = 4 /\ RaftLog.term (r_log r') 5 = Ok (SOk 0) /\
-    persisted (r_log r') = 4 /\ u_snapshot (unst (r_log r')) = Some s.
-Proof. exact requested_snapshot_truncates_witness. Qed.
-Print Assumptions C15_requested_snapshot_truncates_witness.
+  exists r', restore r s = Ok (r', false) /\
+    r_log r' = r_log r /\ last_index (r_log r') = 5 /\ RaftLog.term (r_log r') 5 = Ok (SOk 1) /\
+    persisted (r_log r') = 5 /\ u_snapshot (unst (r_log r')) = None /\
+    r_pending_request_snapshot r' = 5.
+Proof. exact requested_stale_snapshot_keeps_log. Qed.
+Print Assumptions C15_requested_stale_snapshot_keeps_log.
 
-Theorem C15_requested_snapshot_truncates_step :
+Theorem C15_requested_stale_snapshot_keeps_log_step :
   exists r1 r' mm,
     request_snapshot w_follower = Ok (r1, E_OK) /\
     step r1 w_msg = Ok (r', E_OK) /\
-    last_index (r_log r1) = 5 /\ last_index (r_log r') = 4 /\
+    last_index (r_log r1) = 5 /\ last_index (r_log r') = 5 /\
+    r_log r' = r_log r1 /\
     r_msgs r' = r_msgs r1 ++ [mm] /\
     m_type mm = MsgAppendResponse /\ m_index mm = 4 /\ m_reject mm = false.
 Proof.
   destruct w_requested_ok as (r1 & A & B & _).
-  destruct requested_snapshot_truncates_step as (r' & mm & C0 & D).
+  destruct requested_stale_snapshot_keeps_log_step as (r' & mm & C0 & D).
   exists r1, r', mm. rewrite <- B. split; [rewrite B; exact A|]. split; [exact C0|exact D].
 Qed.
-Print Assumptions C15_requested_snapshot_truncates_step.
+Print Assumptions C15_requested_stale_snapshot_keeps_log_step.
+
+(* positive: in the same state a snapshot at the requested index (5, matching!) or above
+   it (6) is installed *)
+Theorem C15_requested_snapshot_at_request_installed :
+  let r := w_requested in
+  let s := mkSnap 5 1 w_cs in
+  match_term (r_log r) (s_index s) (s_term s) = Ok true /\
+  exists r', restore r s = Ok (r', true) /\
+    last_index (r_log r') = 5 /\ committed (r_log r') = 5 /\
+    u_snapshot (unst (r_log r')) = Some s /\ r_pending_request_snapshot r' = 0.
+Proof. exact requested_snapshot_at_request_installed. Qed.
+Print Assumptions C15_requested_snapshot_at_request_installed.
+
+Theorem C15_requested_snapshot_above_request_installed :
+  let r := w_requested in
+  let s := mkSnap 6 1 w_cs in
+  exists r', restore r s = Ok (r', true) /\
+    last_index (r_log r') = 6 /\ committed (r_log r') = 6 /\
+    RaftLog.term (r_log r') 6 = Ok (SOk 1) /\
+    u_snapshot (unst (r_log r')) = Some s /\ r_pending_request_snapshot r' = 0.
+Proof. exact requested_snapshot_above_request_installed. Qed.
+Print Assumptions C15_requested_snapshot_above_request_installed.
 
 Theorem C15_unrequested_snapshot_keeps_log :
   exists r',
@@ -331,7 +388,7 @@ Print Assumptions C15_compaction_transparent.
 (* ------------------------------------------------------------------ *)
 (* Non-vacuity *)
 
-(* an install that succeeds (the F2 witness state is one), with a joint ConfState *)
+(* an install that succeeds, with a joint ConfState *)
 Example C15_example_install :
   let s := mkSnap 7 3 (mkCS [1; 2] [4] [2; 3] [] true) in
   exists r', restore w_follower s = Ok (r', true) /\
